@@ -772,6 +772,92 @@ fn typing_table(ctx: &mut ShardCtx) {
     }
 }
 
+/// Valid uses of a function result whose type is fixed by `return` statements at various nesting
+/// positions (if / else / loop / block / else inside if), alone or next to a return of another
+/// type: every use that is well typed for some `return` of the function must be accepted.
+fn return_type_table(ctx: &mut ShardCtx) {
+    // (type, literal, valid uses with $X for the call)
+    let types: [(&str, &str, &[&str]); 4] = [
+        ("number", "7", &["shout($X times 2)", "shout(minus $X)", "shout($X.abs())", "make rv get [1, 2]\nshout(rv[$X])"]),
+        ("string", "\"text\"", &["shout($X.len())", "shout($X.to_uppercase())", "shout($X add \"!\")"]),
+        ("boolean", "true", &["shout(not $X)", "shout($X and true)", "if to say ($X) start\nshout(1)\nend"]),
+        ("array", "[1, 2]", &["shout($X[0])", "shout($X.len())", "shout($X.join(\",\"))"]),
+    ];
+    // single return at a position ($L = literal); every other path falls off the end
+    let single: [(&str, &str); 6] = [
+        ("top", "return $L"),
+        ("if-branch", "if to say (c) start\nreturn $L\nend"),
+        ("else-branch", "if to say (c) start\nshout(0)\nend\nif not so start\nreturn $L\nend"),
+        ("loop-body", "jasi (c) start\nreturn $L\nend"),
+        ("bare-block", "start\nreturn $L\nend"),
+        ("else-inside-if", "if to say (c) start\nif to say (false) start\nshout(0)\nend\nif not so start\nreturn $L\nend\nend"),
+    ];
+    // two returns of different types ($L and $M)
+    let pairs: [(&str, &str); 3] = [
+        ("if/else", "if to say (c) start\nreturn $L\nend\nif not so start\nreturn $M\nend"),
+        ("loop/after", "jasi (c) start\nreturn $L\nend\nreturn $M"),
+        ("block-in-else/top", "if to say (c) start\nshout(0)\nend\nif not so start\nstart\nreturn $L\nend\nend\nreturn $M"),
+    ];
+    let mut cases: Vec<(String, String)> = Vec::new(); // (program fragment, class)
+    for (tn, lit, uses) in &types {
+        for (pn, body) in &single {
+            for u in *uses {
+                let f = format!("do trf(c) start\n{}\nend\n{}", body.replace("$L", lit), u.replace("$X", "trf(true)"));
+                cases.push((f, format!("{tn} returned from {pn}")));
+            }
+        }
+    }
+    for (t1, l1, u1) in &types {
+        for (t2, l2, u2) in &types {
+            if t1 == t2 {
+                continue;
+            }
+            for (pn, body) in &pairs {
+                for u in u1.iter().chain(u2.iter()) {
+                    let f = format!(
+                        "do trf(c) start\n{}\nend\n{}",
+                        body.replace("$L", l1).replace("$M", l2),
+                        u.replace("$X", "trf(true)")
+                    );
+                    cases.push((f, format!("{t1} and {t2} returned from {pn}")));
+                }
+            }
+        }
+    }
+    let mut idx = 0u32;
+    for (cname, head, foot) in &CONTEXTS {
+        for (frag, class) in &cases {
+            idx += 1;
+            if idx % ctx.of != ctx.shard {
+                continue;
+            }
+            let src = format!("{head}{frag}{foot}\n");
+            ctx.eval();
+            let input = json!({"raw_source": src, "rule": J::Null});
+            let obs = match front_end(&src) {
+                Ok(o) => o,
+                Err(c) => {
+                    ctx.handle("return-types", Outcome::Fail(Failure {
+                        sig: format!("front-end-crash|{c}"),
+                        what: format!("front end crashed ({c})\n{src}"),
+                        input,
+                    }));
+                    continue;
+                }
+            };
+            ctx.nontrivial(hash_str(&src));
+            ctx.class("return-type table: use that fits a `return` of the function");
+            if let Some(e) = obs.front.iter().find(|d| d.is_error()) {
+                ctx.handle("return-types", Outcome::Fail(Failure {
+                    sig: format!("valid-rejected|{}|{class}", e.message),
+                    what: format!("a use that fits a `return` of the function ({class}) was rejected in context {cname}: {}\n{src}", e.text()),
+                    input,
+                }));
+            }
+        }
+    }
+}
+
 fn grid(ctx: &mut ShardCtx) {
     let mut idx = 0u32;
     let mut run = |ctx: &mut ShardCtx, rule: Option<Rule>, cname: &str, src: String| {
@@ -884,6 +970,7 @@ impl Check for C09 {
     fn shard(&self, ctx: &mut ShardCtx) {
         grid(ctx);
         typing_table(ctx);
+        return_type_table(ctx);
         let n_valid = ctx.tier.pick(5_000, 50_000);
         let n_inj = ctx.tier.pick(14_000, 120_000);
         for profile in ["general", "scope"] {
